@@ -60,6 +60,32 @@ def ls_case_lit(cid, l):
             f"{qm(X)} {qm(P)}))")
 
 
+def tk_case_lit(cid, t):
+    before = "[" + "; ".join(qm(f) for f in t["before"]) + "]"
+    after = "[" + "; ".join(qm(f) for f in t["after"]) + "]"
+    return f"({cid}%nat, TkBlock (mkTk {qt(t['X'])} {C.nat_list(t['rs'])} {before} {after} {qv(t['core'])}))"
+
+
+def cmtf_case_lit(cid, m):
+    facs = "[" + "; ".join(qm(f) for f in m["facs"]) + "]"
+    return (f"({cid}%nat, CmtfBlock (mkCm {qt(m['X'])} {qm(m['Y'])} {facs} {qm(m['V'])} {m['V'].shape[0]}%nat {m['rank']}%nat {qm(m['xnew'])}))")
+
+
+def tr_case_lit(cid, t):
+    cores = "[" + "; ".join(qt(c) for c in t["cores"]) + "]"
+    design = qm(t["design"]) if t["design"] is not None else "(@nil (list Q))"
+    return (f"({cid}%nat, TRBlock (mkTr {qt(t['X'])} {cores} {t['dim']}%nat {qt(t['new'])} {C.boolc(t['design'] is not None)} {design}))")
+
+
+def tkreg_case_lit(cid, g):
+    xs = "[" + "; ".join(qt(x) for x in g["Xs"]) + "]"
+    us = "[" + "; ".join(qm(f) for f in g["Us"]) + "]"
+    newfac = qm(g["newfac"]) if g["newfac"] is not None else "(@nil (list Q))"
+    newcore = qv(g["newcore"]) if g["newcore"] is not None else "(@nil Q)"
+    return (f"({cid}%nat, TkRegBlock (mkTg {xs} {qv(g['ys'])} {C.nat_list(g['rs'])} {qv(g['core'])} {us} {C.boolc(g['newcore'] is not None)} "
+            f"{g['mode']}%nat {C.q(float(g['reg']))} {newcore} {newfac}))")
+
+
 def reg_case_lit(cid, g):
     xs = "[" + "; ".join(qt(x) for x in g["Xs"]) + "]"
     facs = "[" + "; ".join(qm(f) for f in g["facs"]) + "]"
@@ -268,13 +294,13 @@ def hals_objective(G, B, V, l1, l2):
 
 
 # ----------------------------------------------------------------------------- the runs
-BUDGET = {"quick": dict(cp=84, hals=36, ls=32, norm=12, reg=8), "thorough": dict(cp=480, hals=220, ls=200, norm=80, reg=50)}
+BUDGET = {"quick": dict(cp=84, hals=36, ls=32, norm=12, reg=12, tk=10, cmtf=8, tkreg=8, tr=10), "thorough": dict(cp=480, hals=220, ls=200, norm=80, reg=50, tk=60, cmtf=50, tkreg=40, tr=60)}
 
 
 class Ctx:
     def __init__(self, chk, rng, tier):
         self.chk, self.rng, self.tier = chk, rng, tier
-        self.cands = {"cp": [], "hals": [], "ls": [], "norm": [], "reg": []}     # candidates for the exact (Coq) block check
+        self.cands = {"cp": [], "hals": [], "ls": [], "norm": [], "reg": [], "tk": [], "cmtf": [], "tkreg": [], "tr": []}     # candidates for the exact (Coq) block check
         self.cases, self.meta = [], []
         self.skipped_illcond = 0
         self.n_cp, self.n_hals, self.n_ls, self.n_norm, self.n_reg = 0, 0, 0, 0, 0
@@ -297,7 +323,8 @@ class Ctx:
         self.cands[kind].append((group, lit_fn, payload, descr))
 
     def select(self):
-        for kind in ("cp", "hals", "ls", "norm", "reg"):
+        self.n_kind = {}
+        for kind in ("cp", "hals", "ls", "norm", "reg", "tk", "cmtf", "tkreg", "tr"):
             groups = {}
             for c in self.cands[kind]:
                 groups.setdefault(c[0], []).append(c)
@@ -318,6 +345,7 @@ class Ctx:
             if kind == "ls": self.n_ls = len(picked)
             if kind == "norm": self.n_norm = len(picked)
             if kind == "reg": self.n_reg = len(picked)
+            self.n_kind[kind] = len(picked)
 
 
 def attempt(ctx, entry):
@@ -486,9 +514,44 @@ def cp_objective_rel(X, w, facs, lam=0.0):
     return math.sqrt(max(sq, 0.0)) / float(np.linalg.norm(X))
 
 
+def run_corpus(ctx, _n=None):
+    """minimised regression inputs (corpus/C07/*.json) that run first, independent of the seed"""
+    import glob, json, os
+    from tensorly.decomposition import _cp
+    chk = ctx.chk
+    entry = "tensorly.decomposition.parafac"
+    for fn in sorted(glob.glob(os.path.join(C.VERIF, "corpus", "C07", "*.json"))):
+        try:
+            d = json.load(open(fn))
+        except Exception:
+            continue
+        if d.get("kind") != "parafac_linesearch":
+            continue
+        r = np.random.RandomState(int(d["data_seed"]))
+        shape, rank = tuple(d["shape"]), int(d["rank"])
+        X = dense_problem(r, shape, rank, d["family"])
+        if d.get("frobenius_norm"):
+            X = X * (float(d["frobenius_norm"]) / float(np.linalg.norm(X)))
+        kw = dict(n_iter_max=int(d.get("n_iter_max", 30)), tol=0, return_errors=True, init="random", random_state=int(d["random_state"]), linesearch=True)
+        inputs = dict(shape=list(shape), rank=rank, variant="corpus:" + os.path.basename(fn), tensor=X, options=kw)
+        iterates = []
+        attempt(ctx, entry)
+        with Capture() as cap:
+            out = C.call_impl(_cp.parafac, X.copy(), rank,
+                              callback=lambda cp, e: iterates.append((None if cp[0] is None else np.array(cp[0], dtype=float), [np.array(f, dtype=float) for f in cp[1]])) and None, **kw)
+        chk.hist("algorithm", "parafac:corpus")
+        if out[0] != "ok":
+            raised(ctx, entry, out[1]); continue
+        if cap.maxcond > COND_MAX:
+            ctx.skipped_illcond += 1; continue
+        history_check(ctx, entry, inputs, out[1][1])
+        if iterates:
+            history_check(ctx, entry, inputs, [cp_objective_rel(X, w, f) for (w, f) in iterates], what="objective recomputed from callback iterates")
+
+
 PARAFAC_VARIANTS = ["plain", "normalize", "svd", "userinit", "l2", "linesearch", "fixed0", "normalize+userw", "linesearch+normalize",
                     "l2+normalize", "linesearch+dense", "fixed0+normalize", "linesearch+dense", "l2+normalize+userw", "fixed01", "linesearch+dense+normalize",
-                    "linesearch+dense", "linesearch+dense"]
+                    "linesearch+dense+small", "linesearch+dense", "linesearch+dense+large", "linesearch+dense+small+normalize"]
 
 
 def run_parafac(ctx, n_runs):
@@ -510,6 +573,10 @@ def run_parafac(ctx, n_runs):
             rank = rng.choice([1, 2, 2, 2]) if min(shape) >= 2 else 1
         r = np_rng(rng)
         X = dense_problem(r, shape, rank, rng.choice(["randn", "collinear"])) if dense else lowrank(r, shape, rank, rng.choice([0.0, 0.05, 0.3]))
+        # data far from unit Frobenius norm: relative and unnormalised errors differ by orders of magnitude, so an acceptance
+        # test / stopping rule mixing the two shows up
+        if "small" in variant: X = X * (0.05 / float(np.linalg.norm(X)))
+        if "large" in variant: X = X * (40.0 / float(np.linalg.norm(X)))
         kw = dict(n_iter_max=8, tol=0, return_errors=True, init="random", random_state=r.randint(1 << 30))
         lam = 0.0
         if "normalize" in variant: kw["normalize_factors"] = True
@@ -706,6 +773,26 @@ def run_tucker(ctx, n_runs):
         history_check(ctx, entry, inputs, out[1][1])
         # SVD calls of the initialisation come first (init='svd': one per mode); every later one is a HOOI block
         check_hooi_tape(ctx, entry, inputs, cap, hooi_only_after=(len(modes) if init == "svd" else 0))
+        # one HOOI block for the exact check: factors before / after block j of sweep t (answers of the captured SVD calls; the
+        # identity on the modes that are not decomposed), core recomputed by the implementation from the factors after the block
+        m = len(modes)
+        off = len(cap.hooi_svds) - 8 * m
+        if off in (0, m) and X.size <= 64:
+            t, j = rng.randrange(1, 8), rng.randrange(m)
+            ans = lambda tt, jj: cap.hooi_svds[off + tt * m + jj]["U"]
+            fb = [ans(t, jj) if jj < j else ans(t - 1, jj) for jj in range(m)]
+            fa = [ans(t, jj) if jj <= j else ans(t - 1, jj) for jj in range(m)]
+            if all(f.shape == (shape[modes[jj]], ranks[jj]) for jj, f in enumerate(fa)):
+                def full(fs):
+                    Us = [np.eye(d) for d in shape]
+                    for jj, f in enumerate(fs):
+                        Us[modes[jj]] = f
+                    return Us
+                rs_full = [int(U.shape[1]) for U in full(fa)]
+                core = np.asarray(tl.tenalg.multi_mode_dot(X, fa, modes=list(modes), transpose=True), dtype=float)
+                if int(np.prod(rs_full)) <= 32 and list(core.shape) == rs_full:
+                    ctx.add_case("tk", tk_case_lit, dict(X=X, rs=rs_full, before=full(fb), after=full(fa), core=core.ravel()),
+                                 dict(entry=entry, inputs=dict(inputs, sweep=t, block=j, kind="hooi block")))
         # objective recomputed from prefix runs: || X - core x_modes factors || / ||X||
         objs, ok = [], True
         for nit in range(1, 6):
@@ -739,6 +826,9 @@ def run_parafac2(ctx, n_runs):
             S = (P @ Bm) @ np.diag(A[i]) @ Cm.T
             slices.append(S + (0.35 if "normalize" in variant else rng.choice([0.1, 0.4])) * np.linalg.norm(S) / math.sqrt(S.size) * r.randn(J, K))
         ls = "linesearch" in variant
+        if ls and it % 2 == 0:
+            c = 0.05 / math.sqrt(sum(float(np.sum(sl ** 2)) for sl in slices))
+            slices = [sl * c for sl in slices]; variant += "+small"
         kw = dict(tol=1e-300, init="random", random_state=r.randint(1 << 30), linesearch=ls, return_errors=True)
         if nonneg: kw["nn_modes"] = [0, 2]
         if "normalize" in variant: kw["normalize_factors"] = True
@@ -790,6 +880,9 @@ def run_p2_linestep(ctx, n_runs):
             P, _ = np.linalg.qr(r.randn(J, rank))
             S = (P @ Bm) @ np.diag(A[i]) @ Cm.T
             slices.append(S + 0.1 * np.linalg.norm(S) / math.sqrt(S.size) * r.randn(J, K))
+        if it % 3 == 2:      # data of Frobenius norm 0.05 (see run_parafac)
+            c = 0.05 / math.sqrt(sum(float(np.sum(sl ** 2)) for sl in slices))
+            slices = [sl * c for sl in slices]; A = A * c
         norm = math.sqrt(sum(float(np.sum(sl ** 2)) for sl in slices))
         true = [A, Bm, Cm]
         # the current ALS iterate and the previous one: depending on `step` the extrapolation lands near the solution (accept)
@@ -859,6 +952,20 @@ def run_tr_als(ctx, n_runs):
         nx = float(np.linalg.norm(X))
         objs = [float(np.linalg.norm(np.asarray(tl.tr_to_tensor(cs)) - X)) / nx for cs in cores]
         history_check(ctx, entry, inputs, objs, what="objective recomputed from callback iterates")
+        # one block for the exact check against the MODEL-derived sub-chain design matrix: cores before block d of sweep t are the
+        # cores of sweep t for the modes < d and of sweep t-1 (t = 1: the initial guess) for the others (callback iterates)
+        if len(cores) >= 2 and X.size <= 40 and all(len(c) == nd for c in cores):
+            t, d = rng.randrange(1, len(cores)), rng.randrange(nd)
+            before = [cores[t][k2] if k2 < d else cores[t - 1][k2] for k2 in range(nd)]
+            newc = cores[t][d]
+            design = None
+            if variant == "lstsq" and len(cap.lstsq) == nd * (len(cores) - 1):
+                design = cap.lstsq[(t - 1) * nd + d]["A"]
+                if design.shape != (X.size // shape[d], newc.shape[0] * newc.shape[2]):
+                    design = None
+            if max(c.size for c in before) <= 24:
+                ctx.add_case("tr", tr_case_lit, dict(X=X, cores=before, dim=d, new=newc, design=design),
+                             dict(entry=entry, inputs=dict(inputs, sweep=t, block=d, kind="tr block")))
         n_sw = len(cap.lstsq) // nd
         if variant == "lstsq" and n_sw >= 2 and len(cap.lstsq) == nd * n_sw:
             for d in ([rng.randrange(nd)] if ctx.tier == "quick" else range(nd)):
@@ -930,6 +1037,13 @@ def run_cmtf(ctx, n_runs):
                     if b["cond"] <= COND_MAX and (ctx.tier != "quick" or rng.random() < 0.6):
                         ctx.add_case("cp", cp_case_lit, b, dict(entry=entry, inputs=dict(inputs, block=t * per + slot, mode=ii, kind="cmtf lstsq block")))
                     F[ii] = sol.T.copy()
+            # the coupled block (mode 0) against the MODEL system  G + V'V,  MTTKRP + Y V
+            t = rng.randrange(1, n_it)
+            F = [cap.lstsq[(t - 1) * per + 3]["X"].T.copy(), cap.lstsq[t * per + 2]["X"].T.copy(), cap.lstsq[t * per + 1]["X"].T.copy()]
+            Vt, xnew = cap.lstsq[t * per + 0]["X"].T.copy(), cap.lstsq[t * per + 3]["X"].T.copy()
+            if [f.shape[0] for f in F] == list(shape) and Vt.shape == (q, rank) and xnew.shape == F[0].shape:
+                ctx.add_case("cmtf", cmtf_case_lit, dict(X=X, Y=Y, facs=F, V=Vt, rank=rank, xnew=xnew),
+                             dict(entry=entry, inputs=dict(inputs, sweep=t, kind="coupled block")))
             for _ in range(1 if ctx.tier == "quick" else 3):
                 j = rng.randrange(per, len(cap.lstsq))
                 rec, before = cap.lstsq[j], cap.lstsq[j - per]
@@ -971,7 +1085,9 @@ def run_regressors(ctx, n_runs):
                 raised(ctx, entry, out[1]); ok = False; break
             if nit == 3:
                 lscap = cap
-            if nit == 2 and kind == "cp":
+            if nit == 2 and kind == "tucker":
+                G2 = np.array(est.tucker_weight_[0], dtype=float); W2 = [np.array(f, dtype=float) for f in est.tucker_weight_[1]]
+            if nit == 2 and kind != "tucker":
                 W2 = [np.array(f, dtype=float) for f in est.cp_weight_[1]]
             if kind != "tucker":
                 w, W = est.cp_weight_
@@ -992,19 +1108,52 @@ def run_regressors(ctx, n_runs):
         history_check(ctx, entry, inputs, hist, what="ridge objective (prefix runs)")
         # CP regressor, scalar responses: ridge block against the MODEL's design matrix (flattened MTTKRPs of the samples).
         # State before block j of sweep 3 = factors after 2 sweeps (prefix run) with the answers of blocks 0..j-1 of sweep 3
-        if kind == "cp" and lscap is not None and len(lscap.solves) == 3 * len(dims):
-            nm, rk = len(dims), W2[0].shape[1]
+        if kind != "tucker" and lscap is not None and len(lscap.solves) == 3 * (len(dims) + len(odims)):
+            # matrix-valued responses: response (s, o) is the scalar response of the sample tensor X_s (x) e_o (outer product with a
+            # unit vector), so the same model block / theorem applies with n_samples * n_outputs samples of order p + 1
+            if odims:
+                O = odims[0]
+                samples = [np.multiply.outer(Xs[si], np.eye(O)[o]) for si in range(ns) for o in range(O)]
+                resp = np.array([y[si, o] for si in range(ns) for o in range(O)])
+            else:
+                samples, resp = [x for x in Xs], y
+            nm, rk = len(dims) + len(odims), W2[0].shape[1]
             W = [f.copy() for f in W2]
             jpick = rng.randrange(nm)
             for j in range(nm):
                 xj = lscap.solves[2 * nm + j]["x"]
                 if xj.size != W[j].size:
                     break
-                xnew = xj.reshape(-1, rk)
-                if j == jpick or ctx.tier != "quick":
-                    ctx.add_case("reg", reg_case_lit, dict(Xs=[x for x in Xs], ys=y, facs=[f.copy() for f in W], mode=j, rank=rk, reg=reg, xnew=xnew),
-                                 dict(entry=entry, inputs=dict(inputs, block=j, kind="ridge block")))
+                xnew = xj.reshape(-1, rk) if j < len(dims) else xj.T.copy()     # output modes: W[i] = transpose(solve(...))
+                if xnew.shape != W[j].shape:
+                    break
+                if j == jpick or j >= len(dims) or ctx.tier != "quick":     # the output-mode branch always
+                    ctx.add_case("reg", reg_case_lit, dict(Xs=samples, ys=resp, facs=[f.copy() for f in W], mode=j, rank=rk, reg=reg, xnew=xnew),
+                                 dict(entry=entry, inputs=dict(inputs, block=j, kind="ridge block" + (" (matrix responses)" if odims else ""))))
                 W[j] = xnew
+        # Tucker regressor: factor blocks and the core block of sweep 3 against the MODEL-derived design (unit-matrix predictions /
+        # projected samples); state before block j = (core, factors) after 2 sweeps with the answers of blocks 0..j-1 applied
+        if kind == "tucker" and lscap is not None and len(lscap.solves) == 3 * (len(dims) + 1):
+            nm = len(dims)
+            W = [f.copy() for f in W2]; G = G2.copy()
+            rs_ = [int(f.shape[1]) for f in W]
+            jpick = rng.randrange(nm)
+            okk = True
+            for j in range(nm):
+                xj = lscap.solves[2 * (nm + 1) + j]["x"]
+                if xj.size != W[j].size:
+                    okk = False; break
+                xnew = xj.reshape(W[j].shape)
+                if j == jpick or ctx.tier != "quick":
+                    ctx.add_case("tkreg", tkreg_case_lit, dict(Xs=[x for x in Xs], ys=y, rs=rs_, core=G.ravel().copy(), Us=[f.copy() for f in W], mode=j, reg=reg,
+                                                               newcore=None, newfac=xnew),
+                                 dict(entry=entry, inputs=dict(inputs, block=j, kind="factor block")))
+                W[j] = xnew
+            xg = lscap.solves[2 * (nm + 1) + nm]["x"]
+            if okk and xg.size == G.size:
+                ctx.add_case("tkreg", tkreg_case_lit, dict(Xs=[x for x in Xs], ys=y, rs=rs_, core=G.ravel().copy(), Us=[f.copy() for f in W], mode=0, reg=reg,
+                                                           newcore=xg.ravel().copy(), newfac=None),
+                             dict(entry=entry, inputs=dict(inputs, block=nm, kind="core block")))
         # least-squares blocks (design matrix as exposed by the implementation's local variables, when available)
         if lscap is not None:
             recs = lscap.solves
@@ -1022,7 +1171,7 @@ def run_regressors(ctx, n_runs):
 
 
 def PLAN(quick):
-    return [(run_parafac, 72 if quick else 396), (run_nn_hals, 18 if quick else 120), (run_hals_nnls, 36 if quick else 300),
+    return [(run_corpus, 0), (run_parafac, 80 if quick else 400), (run_nn_hals, 18 if quick else 120), (run_hals_nnls, 36 if quick else 300),
             (run_tucker, 18 if quick else 120), (run_parafac2, 24 if quick else 72), (run_p2_linestep, 30 if quick else 120), (run_tr_als, 12 if quick else 80),
             (run_cmtf, 12 if quick else 80), (run_regressors, 12 if quick else 60)]
 
@@ -1044,7 +1193,7 @@ def run(chk):
     chk.checker_cmds.append("coqc (vm_compute, Qops) on generated build/cases/C07/*.v: Corr.C07.failing")
     chk.cov["traces_validated_against_impl"] = n_eval
     chk.cov["exhaustive"] = False
-    chk.cov["block_cases"] = dict(cp_blocks=ctx.n_cp, hals_chains=ctx.n_hals, ls_blocks=ctx.n_ls, normalisations=ctx.n_norm, regressor_blocks=ctx.n_reg, float_block_predicates=ctx.py_blocks,
+    chk.cov["block_cases"] = dict(cp_blocks=ctx.n_cp, hals_chains=ctx.n_hals, ls_blocks=ctx.n_ls, normalisations=ctx.n_norm, regressor_blocks=ctx.n_reg, hooi_blocks=ctx.n_kind.get("tk", 0), cmtf_coupled_blocks=ctx.n_kind.get("cmtf", 0), tucker_regressor_blocks=ctx.n_kind.get("tkreg", 0), tensor_ring_blocks=ctx.n_kind.get("tr", 0), float_block_predicates=ctx.py_blocks,
                                   candidates={k: len(v) for k, v in ctx.cands.items()})
     chk.cov["skipped_ill_conditioned"] = ctx.skipped_illcond
     chk.cov["rule"] = ("seeded well-conditioned problems (low rank + noise; dense / nearly collinear ones for the line search), orders 2-4, rank 1-3: every algorithm "
@@ -1068,7 +1217,7 @@ def run(chk):
         chk.disagreement(f"corr:C07 {kind} block (Model/Descent.v vs {descr['entry']})", dict(kind=kind, **descr))
         # turn the disagreement into a failing input: the run whose captured block disagrees with the model
         inp = dict(descr["inputs"]); inp["block_kind"] = kind
-        for k in ("G", "B", "A", "Y", "X", "M", "xnew", "w", "facs", "iterates", "mode", "lam", "prev", "l1", "l2", "eps", "tape", "w_impl", "facs_impl", "Xs", "ys", "reg"):
+        for k in ("G", "B", "A", "Y", "X", "M", "xnew", "w", "facs", "iterates", "mode", "lam", "prev", "l1", "l2", "eps", "tape", "w_impl", "facs_impl", "Xs", "ys", "reg", "rs", "before", "after", "core", "V", "Us", "newcore", "newfac", "cores", "dim", "new", "design"):
             if k in payload and k not in inp:
                 inp["block_" + k] = payload[k]
         chk.finding(descr["entry"], inp, f"{kind} block: the implementation's block state disagrees with the exact model block "
